@@ -7,11 +7,11 @@ import os
 import vlib
 
 TTL_MS, UNIT_MS, MARGIN_MS = 300, 120, 25        # ttl = 2.5 units: no event ever falls within 60 ms of a deadline
-BACKENDS = ["memory", "redis", "hybrid-redis", "hybrid-mem"]
-PTR = {"memory": 1, "hybrid-mem": 1, "redis": 0, "hybrid-redis": 0}     # Get hands back the stored Go value
-INCL = {"memory": 1, "hybrid-mem": 1, "redis": 0, "hybrid-redis": 0}    # readable at exactly the deadline (never observed)
+BACKENDS = ["memory", "redis", "hybrid-redis", "hybrid-shared-mem", "hybrid-mem"]
+PTR = {"memory": 1, "hybrid-mem": 1, "hybrid-shared-mem": 1, "redis": 0, "hybrid-redis": 0}     # Get hands back the stored Go value
+INCL = {"memory": 1, "hybrid-mem": 1, "hybrid-shared-mem": 1, "redis": 0, "hybrid-redis": 0}    # readable at exactly the deadline (never observed)
 
-CONNECT, AUTHOK, AUTHFAIL, KICK, HEARTBEAT, CLOSE, TICK, SREG, SUNREG, SREFRESH = 0, 1, 2, 3, 4, 5, 6, 10, 11, 12
+CONNECT, AUTHOK, AUTHFAIL, KICK, HEARTBEAT, CLOSE, TICK, STALE, SREG, SUNREG, SREFRESH = 0, 1, 2, 3, 4, 5, 6, 7, 10, 11, 12
 SIDE_CONDITIONS = 7   # lemmas of Proofs/SideC08.v
 
 
@@ -31,38 +31,68 @@ def tick(rng, budget):
 
 
 def session_history(rng, nodes, clients, length):
-    """valid SessionManager histories: unique connection ids, handshakes on open connections, a connection
-    authenticates as one client id only; logins of a client may be preceded by the kick the real auth handler issues"""
+    """valid SessionManager histories: unique connection ids, handshakes only on connections whose stream the server has
+    not closed (not closed / kicked / replaced), a connection authenticates as one client id only; logins may be preceded
+    by the kick the real auth handler issues; a kick may also happen WITHOUT the login completing; connections end by
+    CloseConnection or by the stale sweep"""
     ops, nextc, budget = [], [1], [9]
-    open_conns = []          # (n, c)
-    owner = {}               # c -> client
+    open_conns = []          # (n, c): CloseConnection has not run
+    dead = set()             # stream closed by kick / replacement
+    owner = {}               # c -> client (successful handshake)
     current = {}             # x -> (n, c)
+    regmap = {}              # (n, x) -> c registered control connection
+
+    def login(n, c, x):
+        old = regmap.get((n, x))
+        if old is not None and old != c:
+            dead.add(old)
+        regmap[(n, x)] = c
+        owner[c] = x
+        current[x] = (n, c)
+
+    def kick(n, x, newc):
+        old = regmap.get((n, x))
+        if old is not None and old != newc:
+            dead.add(old)
+            del regmap[(n, x)]
+
+    def gone(n, c):
+        for k, v in list(regmap.items()):
+            if k[0] == n and v == c:
+                del regmap[k]
+
     for _ in range(length):
         k = rng.random()
+        usable = [nc for nc in open_conns if nc[1] not in dead]
         if k < 0.16 or not open_conns:
             n = rng.randrange(1, nodes + 1)
             c = nextc[0]
             nextc[0] += 1
             ops.append([CONNECT, n, c])
             open_conns.append((n, c))
-            if rng.random() < 0.8:
-                x = rng.choice(clients)
+            r = rng.random()
+            x = rng.choice(clients)
+            if r < 0.75:
                 if rng.random() < 0.4:
                     ops.append([KICK, n, x, c])
+                    kick(n, x, c)
                 ops.append([AUTHOK, n, c, x])
-                owner[c] = x
-                current[x] = (n, c)
-        elif k < 0.26:
-            n, c = rng.choice(open_conns)
+                login(n, c, x)
+            elif r < 0.87:
+                # the auth handler kicked the old connection but the login did not complete (response lost / rejected)
+                ops.append([KICK, n, x, c])
+                kick(n, x, c)
+                if rng.random() < 0.5:
+                    ops.append([AUTHFAIL, n, c, x])
+        elif k < 0.26 and usable:
+            n, c = rng.choice(usable)
             x = owner.get(c) or rng.choice(clients)
             if rng.random() < 0.25:
                 ops.append([AUTHFAIL, n, c, x])
             else:
                 ops.append([AUTHOK, n, c, x])
-                owner[c] = x
-                current[x] = (n, c)
-        elif k < 0.56:
-            # heartbeats: mostly on current connections, sometimes on stale / unknown ones
+                login(n, c, x)
+        elif k < 0.54:
             if current and rng.random() < 0.7:
                 n, c = current[rng.choice(sorted(current))]
             else:
@@ -71,11 +101,20 @@ def session_history(rng, nodes, clients, length):
                     n = rng.randrange(1, nodes + 1)
             ops.append([HEARTBEAT, n, c])
         elif k < 0.72:
-            # closes: prefer OLD connections (the late cleanup), sometimes the current one
+            # the end of a connection: prefer OLD ones (the late cleanup), sometimes the current one;
+            # by CloseConnection or, for connections that completed a handshake, by the stale sweep
             stale = [nc for nc in open_conns if nc not in current.values()]
             n, c = rng.choice(stale) if stale and rng.random() < 0.7 else rng.choice(open_conns)
-            ops.append([CLOSE, n, c])
-            open_conns.remove((n, c))
+            if c in owner and rng.random() < 0.4:
+                ops.append([STALE, n, c])
+                if regmap.get((n, owner[c])) == c:      # still registered: the sweep closes it
+                    gone(n, c)
+                    open_conns.remove((n, c))
+                    dead.add(c)
+            else:
+                ops.append([CLOSE, n, c])
+                gone(n, c)
+                open_conns.remove((n, c))
         else:
             t = tick(rng, budget)
             if t:
@@ -135,6 +174,13 @@ def scripted(rng):
     # heartbeats stop: the record lapses (no requirement), a new login restores the lookup
     out.append(("lapse-and-return", [[CONNECT, 1, 1], [AUTHOK, 1, 1, x], [TICK, 3], [HEARTBEAT, 1, 1], [TICK, 1],
                                      [CONNECT, 2, 2], [AUTHOK, 2, 2, x], [TICK, 2], [HEARTBEAT, 2, 2], [CLOSE, 1, 1]]))
+    # the client goes silent: the stale sweep closes its last connection -> not connected on every node
+    out.append(("stale-sweep-last", [[CONNECT, 1, 1], [AUTHOK, 1, 1, x], [TICK, 1], [HEARTBEAT, 1, 1], [STALE, 1, 1], [TICK, 1]]))
+    # reconnect to another node, the old node notices only through its stale sweep
+    out.append(("stale-sweep-old", base + [[HEARTBEAT, 2, 2], [STALE, 1, 1], [TICK, 2], [HEARTBEAT, 2, 2], [TICK, 2], [STALE, 2, 2]]))
+    # kicked by a login that never completes, then the kicked connection is closed: not connected
+    out.append(("kick-without-login", [[CONNECT, 1, 1], [AUTHOK, 1, 1, x], [CONNECT, 1, 2], [KICK, 1, x, 2], [AUTHFAIL, 1, 2, x],
+                                       [CLOSE, 1, 1], [TICK, 1], [CLOSE, 1, 2]]))
     # three nodes, ping-pong, cleanups in reverse order
     out.append(("three-nodes", [[CONNECT, 1, 1], [AUTHOK, 1, 1, x], [CONNECT, 2, 2], [AUTHOK, 2, 2, x], [CONNECT, 3, 3],
                                 [AUTHOK, 3, 3, x], [CLOSE, 2, 2], [HEARTBEAT, 3, 3], [TICK, 2], [CLOSE, 1, 1],
@@ -162,6 +208,90 @@ def exhaustive_store(depth):
         for seq in itertools.product(alpha, repeat=d):
             out.append([list(o) for o in seq])
     return out
+
+
+def multiset_perms(counts):
+    """all distinct interleavings of counts[i] steps of thread i"""
+    out = []
+
+    def rec(prefix, left):
+        if not any(left):
+            out.append(list(prefix))
+            return
+        for i, k in enumerate(left):
+            if k:
+                left[i] -= 1
+                prefix.append(i)
+                rec(prefix, left)
+                prefix.pop()
+                left[i] += 1
+    rec([], list(counts))
+    return out
+
+
+TH_FIND, TH_REG, TH_UNREG, TH_REFRESH = 0, 1, 2, 3
+
+
+def mkc(backend, setup, threads, sched, nodes, clients, tag):
+    return {"mode": "conc", "backend": backend, "nodes": nodes, "clients": clients, "setup": setup, "threads": threads,
+            "sched": sched, "tag": tag}
+
+
+def conc_cases(ctx, thorough):
+    """concurrent phases at storage-call granularity, replayed through the gated storage double"""
+    rng = ctx.rng
+    out = []
+    x = 7
+    old = [[SREG, 1, 1, x, 1]]
+    # a lookup in flight on node 3 while the client moves from node 1 to node 2 and node 1 cleans up: ALL 420 interleavings
+    moving = [[TH_FIND, 3, x], [TH_REG, 2, 2, x, 1], [TH_UNREG, 1, 1]]
+    all420 = multiset_perms([2, 2, 4])
+    for sched in all420:
+        out.append(mkc("memory", old, moving, sched, 3, [x], "lookup||move:exhaustive"))
+    for sched in (all420 if thorough else rng.sample(all420, 40)):
+        out.append(mkc("redis", old, moving, sched, 3, [x], "lookup||move"))
+    for sched in rng.sample(all420, 40):
+        out.append(mkc("hybrid-redis", old, moving, sched, 3, [x], "lookup||move"))
+    # the writers' own windows: all 15 interleavings each
+    for backend in ("memory", "redis"):
+        for sched in multiset_perms([4, 2]):
+            out.append(mkc(backend, old, [[TH_UNREG, 1, 1], [TH_REG, 2, 2, x, 1]], sched, 2, [x], "unregister||register:exhaustive"))
+            out.append(mkc(backend, old, [[TH_REFRESH, 1, 1], [TH_REG, 2, 2, x, 1]], sched, 2, [x], "refresh||register:exhaustive"))
+    # lookups against heartbeat refresh of the current connection and the late cleanup of the old one
+    two = [[SREG, 1, 1, x, 1], [SREG, 2, 2, x, 1]]
+    hb = [[TH_FIND, 1, x], [TH_REFRESH, 2, 2], [TH_UNREG, 1, 1], [TH_FIND, 2, x]]
+    perms = multiset_perms([2, 4, 3, 2])
+    for sched in rng.sample(perms, 400 if thorough else 60):
+        out.append(mkc(rng.choice(["memory", "redis"]), two, hb, sched, 2, [x], "lookup||heartbeat||cleanup"))
+    # random phases
+    for _ in range(1500 if thorough else 150):
+        conns = {}
+        setup = []
+        for _ in range(rng.randrange(0, 4)):
+            c = rng.randrange(1, 5)
+            conns.setdefault(c, (rng.randrange(1, 3), rng.choice([1, 2])))
+            n, cl = conns[c]
+            setup.append(rng.choice([[SREG, n, c, cl, 1]] * 3 + [[SUNREG, n, c]]))
+        threads = []
+        for _ in range(rng.randrange(2, 5)):
+            k = rng.choice([TH_FIND, TH_FIND, TH_REG, TH_UNREG, TH_REFRESH])
+            if k == TH_FIND:
+                threads.append([TH_FIND, rng.randrange(1, 3), rng.choice([1, 2])])
+            else:
+                c = rng.randrange(1, 6)
+                conns.setdefault(c, (rng.randrange(1, 3), rng.choice([1, 2])))
+                n, cl = conns[c]
+                threads.append([k, n, c, cl, 1] if k == TH_REG else [k, rng.choice([n, n, 3 - n]), c])
+        sched = [rng.randrange(len(threads)) for _ in range(rng.randrange(0, 14))]
+        out.append(mkc(rng.choice(["memory", "redis", "hybrid-shared-mem"]), setup, threads, sched, 2, [1, 2], "random"))
+    return out
+
+
+def conc_value(c, o):
+    pad = lambda op: list(op) + [0] * (5 - len(op))
+    return [list(o["variant"]), [PTR[c["backend"]], INCL[c["backend"]]], 3600000, 2, list(c["clients"]),
+            [[pad(op) for op in c["setup"]], [pad(t) for t in c["threads"]], list(o["sched"])],
+            [[(list(r) if r else None) for r in o["results"]], [[list(a) for a in node] for node in o["final"]]]]
 
 
 def gen_cases(ctx, thorough):
@@ -244,10 +374,15 @@ def run(ctx, only_cases=None):
                             extra_obligations=SIDE_CONDITIONS)
     except vlib.Broken as b:
         broken = b   # keep going: evaluate the predicate on the real code first
-    cases = only_cases if only_cases is not None else load_corpus() + gen_cases(ctx, thorough)
+    all_cases = only_cases if only_cases is not None else load_corpus() + gen_cases(ctx, thorough) + conc_cases(ctx, thorough)
     env = {"VERIF_C08_PAR": "32", "VERIF_REPO": vlib.REPO}
-    outs = vlib.run_harness(binary, cases, timeout=1500, env=env)
-    variant = outs[0]["variant"] if outs else None
+    all_outs = vlib.run_harness(binary, all_cases, timeout=1500, env=env)
+    variant = all_outs[0]["variant"] if all_outs else None
+    cases = [c for c in all_cases if c["mode"] != "conc"]
+    outs = [o for c, o in zip(all_cases, all_outs) if c["mode"] != "conc"]
+    ccases = [c for c in all_cases if c["mode"] == "conc"]
+    couts = [o for c, o in zip(all_cases, all_outs) if c["mode"] == "conc"]
+    repaired = list(variant or []) == [1, 1, 1, 1]   # the interleaving model is the repaired code only
 
     # (iii) the property predicate evaluated on the real code's answers
     nfail, by_key = 0, {}
@@ -255,6 +390,16 @@ def run(ctx, only_cases=None):
         if not o["prop_ok"]:
             nfail += 1
             by_key.setdefault(o["prop_key"], []).append((c, o))
+    # concurrent phases: "a lookup never writes" and the state after the phase
+    cby = {}
+    for c, o in zip(ccases, couts):
+        if not o["prop_ok"]:
+            nfail += 1
+            cby.setdefault(o["prop_key"], []).append((c, o))
+    for key, lst in sorted(cby.items()):
+        c, o = min(lst, key=lambda co: (len(co[0]["threads"]), len(co[1]["sched"])))
+        ctx.violation(key, "real connstate.Store over a gated %s storage: %s (%d schedules fail this way)" % (c["backend"], o["prop_msg"], len(lst)),
+                      {"case": c, "executed_schedule": o["sched"], "storage_calls": o["calls"], "results": o["results"], "final": o["final"]})
     for key, lst in sorted(by_key.items()):
         c, o = min(lst, key=lambda co: len(co[0]["ops"]))
         if key in ctx.known:
@@ -270,11 +415,15 @@ def run(ctx, only_cases=None):
 
     # (ii) model vs implementation, every step of every history (up to the first timing-tainted step)
     terms = [case_value(c, o) for c, o in zip(cases, outs)]
+    if repaired:
+        terms += [conc_value(c, o) for c, o in zip(ccases, couts)]
+    mcases = cases + (ccases if repaired else [])
+    mouts = outs + (couts if repaired else [])
     mism = []
     try:
         res = vlib.model_eval("C08", terms)
         mism = [i for i, ok in enumerate(res) if not ok]
-        small = [i for i, c in enumerate(cases) if len(c["ops"]) <= 12][:: max(1, len(cases) // 40)][:40]
+        small = [i for i, c in enumerate(mcases) if len(c.get("ops", c.get("threads"))) <= 12][:: max(1, len(mcases) // 40)][:40]
         vm_bad = sorted(small[k] for k in vlib.vm_crosscheck("C08", [terms[i] for i in small]))
         ext_bad = sorted(i for i in small if not res[i])
         if vm_bad != ext_bad:
@@ -294,9 +443,10 @@ def run(ctx, only_cases=None):
             pass
         ctx.violation("model-mismatch", "Corr/C08.check: Model/ConnState.v (variant %s) and the real code disagree on a history%s; "
                       "the theorems of Properties/C08.v no longer speak about this code"
-                      % (outs[i]["variant"], "" if outs[i]["prop_ok"] else " (the Go-side predicate fails on it too: %s)" % outs[i]["prop_key"]),
-                      {"case": cases[i], "observed": outs[i]["obs"], "model_predicts": pred, "tainted_at": outs[i]["tainted_at"]},
-                      found_input=not outs[i]["prop_ok"])
+                      % (mouts[i]["variant"], "" if mouts[i]["prop_ok"] else " (the Go-side predicate fails on it too: %s)" % mouts[i]["prop_key"]),
+                      {"case": mcases[i], "observed": mouts[i].get("obs", [mouts[i].get("results"), mouts[i].get("final"), mouts[i].get("sched")]),
+                       "model_predicts": pred, "tainted_at": mouts[i].get("tainted_at")},
+                      found_input=not mouts[i]["prop_ok"])
 
     # coverage
     distinct, nontrivial = set(), set()
@@ -317,14 +467,30 @@ def run(ctx, only_cases=None):
             dist[k][v] = dist[k].get(v, 0) + 1
         for op in c["ops"]:
             dist["ops"][str(op[0])] = dist["ops"].get(str(op[0]), 0) + 1
+    cnontrivial, ctags = set(), {}
+    for c, o in zip(ccases, couts):
+        ctags[c["tag"]] = ctags.get(c["tag"], 0) + 1
+        # non-trivial: at least two invocations actually interleave (the executed schedule switches thread before one finishes)
+        sw = sum(1 for a, b in zip(o["sched"], o["sched"][1:]) if a != b)
+        if sw >= len(c["threads"]):
+            cnontrivial.add(hashlib.sha256(json.dumps([c["backend"], c["setup"], c["threads"], o["sched"]]).encode()).hexdigest())
     samples = [{"case": cases[i], "observed": outs[i]["obs"], "prop_ok": outs[i]["prop_ok"]}
-               for i in sorted({0, len(cases) // 2, len(cases) - 1}) if i < len(cases)]
+               for i in sorted({0, len(cases) // 2, len(cases) - 1}) if 0 <= i < len(cases)]
+    if ccases:
+        k = len(ccases) // 2
+        samples.append({"case": ccases[k], "executed_schedule": couts[k]["sched"], "results": couts[k]["results"],
+                        "final": couts[k]["final"], "prop_ok": couts[k]["prop_ok"]})
     ctx.coverage.update({
-        "evaluations": len(cases), "distinct_nontrivial": len(nontrivial),
+        "evaluations": len(cases) + len(ccases), "distinct_nontrivial": len(nontrivial) + len(cnontrivial),
+        "concurrent_phases": {"replayed": len(ccases), "distinct_nontrivial": len(cnontrivial), "by_tag": ctags,
+                              "compared_with_thread_model": repaired,
+                              "lookups_checked_read_only": sum(1 for c in ccases for t in c["threads"] if t[0] == TH_FIND)},
         "rule": "one evaluation = one history driven through the real code of 2-3 nodes over one shared storage, with FindClientNode "
                 "asked for every client on every node after every event, the C08 predicate evaluated on those answers and the "
                 "whole trace compared with the extracted Coq model; distinct = distinct (mode, backend, history); non-trivial = "
-                "the lookup answered at least two different nodes during the history, or answered a node in a history in which time passes.",
+                "the lookup answered at least two different nodes during the history, or answered a node in a history in which time passes. "
+                "Concurrent phases (gated storage double, one schedule entry = one storage call) count as one evaluation per (phase, schedule); "
+                "non-trivial = the executed schedule switches between invocations at least as often as there are invocations.",
         "samples": samples, "steps_compared": steps, "expectations_checked_on_real_code": sum(o["checked"] for o in outs),
         "model_vs_impl_cases": len(terms), "model_vs_impl_mismatches": len(mism), "impl_property_failures": nfail,
         "impl_property_failures_by_key": {k: len(v) for k, v in by_key.items()},
@@ -335,7 +501,7 @@ def run(ctx, only_cases=None):
     })
     ctx.assumptions += [
         "connection ids are unique across the cluster (C15) — hypothesis `forall n' x, In (AuthOK n' c x) pre -> n' = n` and single_client",
-        "each connstate.Store method is one atomic step (the read-then-delete / read-then-set windows inside UnregisterConnection and RefreshConnection are not modelled)",
+        "Model/ConnState.v takes each connstate.Store method as one atomic step; Model/ConnStateThreads.v drops that assumption (one step = one storage call) for the time-free fragment and is replayed on the real code through a gated storage double; the two residual writer windows it exposes are recorded as known findings",
         "the storage behaves as one TTL key-value map for string / JSON values (C13); Redis replication lag and clock skew between nodes are not modelled",
         "Info.ExpiresAt and the key's storage deadline coincide (both now+ttl of the same call)",
         "the auth handler is scripted (sets ClientID/Authenticated like ServerAuthHandler, whose KickOldControlConnection is the Kick event)",
